@@ -371,10 +371,12 @@ def oracle_expr_compose(r):
             raise Violation(f"resolved symbols {sorted(mid_names & set(r1))} are still free after resolve_parameters")
         if not mid_names <= names:
             raise Violation(f"resolution introduced symbols {sorted(mid_names - names)}")
-        if isinstance(expr, sympy.Basic) and not labels["degenerate"]:
-            exp_names = _free_names(expr.subs({sympy.Symbol(n): M.value_to_python(v) for n, v in r1.items()}))
-            if mid_names != exp_names and not any(M.value_to_python(v) == 0 for v in r1.values()):
-                raise Violation(f"parameter_names after partial resolution {sorted(mid_names)} expected {sorted(exp_names)}")
+        # no algebraic simplification is promised: the remaining names lie between the symbols the value still depends on
+        # (recipe-level numeric test) and the unresolved symbols that occur syntactically (checked above)
+        need = M.depends_on([x], {n: M.value_to_python(v) for n, v in r1.items()}, M.names_of(x) - set(r1))
+        if not need <= mid_names:
+            raise Violation(f"parameter_names after partial resolution {sorted(mid_names)} lacks {sorted(need - mid_names)}, "
+                            f"on which the value still depends")
         labels["survivors"] = len(mid_names)
     elif rec and mid_names & gone:
         raise Violation(f"symbols {sorted(mid_names & gone)} that the chain resolver maps to numbers are still free")
@@ -527,6 +529,7 @@ def _gate_prepare(r):
     trees = CG.case_trees(case) + ([r["tagx"]] if r["wrap"] == "ptag" else [])
     try:
         for t in trees:
+            M.validate_const(t)
             M.ev(t, lookup, stat)
         g_num = CG.build_gate(case, "num", lookup)
     except M.OutOfDomain as e:
@@ -695,6 +698,28 @@ def _zero_pow_after_pr(r):
     return False
 
 
+def _zero_base_power(trees, r1) -> bool:
+    """The numeric first stage turns the base of a power into exactly 0 while its exponent keeps a symbol: 0**b is 1, 0 or
+    undefined depending on b, not an expression of the property's (real, finite) domain."""
+    submap = {sympy.Symbol(n): M.value_to_python(v) for n, v in r1.items()}
+    if not any(v == 0 for v in submap.values()):
+        return False
+    for t in trees:
+        o = M.to_sympy(t)
+        if not isinstance(o, sympy.Basic):
+            continue
+        for n in sympy.preorder_traversal(o):
+            if isinstance(n, sympy.Pow):
+                bb, ee = n.args
+                try:
+                    b2, e2 = bb.subs(submap), ee.subs(submap)
+                except Exception:
+                    return True
+                if getattr(b2, "is_zero", False) and getattr(e2, "free_symbols", None):
+                    return True
+    return False
+
+
 def _sym_constants(r):
     """A slot holds a sympy object without free symbols (documented: may report is_parameterized although names are empty)."""
     ts = CG.case_trees(r["case"]) + ([r["tagx"]] if r["wrap"] == "ptag" else [])
@@ -759,21 +784,19 @@ def oracle_gate_names(r):
     r1 = {n: r["vals"][n] for n in sub}
     if r["wrap"] == "cop_rep":
         return labels
+    labels["zero_base_power_left_symbolic"] = _zero_base_power(trees, r1)  # trigger of repaired defect FC10i (0435525)
     mid = cirq.resolve_parameters(obj, M.build_param_dict(r1, r["keyform"])) if r1 else obj
     mid_names = set(cirq.parameter_names(mid))
     if mid_names & set(r1):
         raise Violation(f"resolved symbols {sorted(mid_names & set(r1))} still in parameter_names\n  case: {what}")
     if not mid_names <= exp:
         raise Violation(f"partial resolution introduced symbols {sorted(mid_names - exp)}\n  case: {what}")
-    zero = any(M.value_to_python(v) == 0 for v in r1.values())
-    if not zero and not degenerate and r["wrap"] != "cop_pr":
-        want = set()
-        for t in trees:
-            o = M.to_sympy(t)
-            if isinstance(o, sympy.Basic):
-                want |= _free_names(o.subs({sympy.Symbol(n): M.value_to_python(v) for n, v in r1.items()}))
-        if mid_names != want:
-            raise Violation(f"parameter_names after resolving {sorted(r1)} is {sorted(mid_names)}, expected {sorted(want)}\n  case: {what}")
+    if r["wrap"] != "cop_pr":
+        # lower bound: symbols the slot values really depend on (numeric test on the recipe); upper bound checked above
+        need = M.depends_on(trees, {n: M.value_to_python(v) for n, v in r1.items()}, set().union(*[M.names_of(t) for t in trees] or [set()]) - set(r1))
+        if not need <= mid_names:
+            raise Violation(f"parameter_names after resolving {sorted(r1)} is {sorted(mid_names)}: lacks {sorted(need - mid_names)}, "
+                            f"on which a slot value still depends\n  case: {what}")
     labels["partial"] = bool(r1) and bool(mid_names)
     if mid_names and not cirq.is_parameterized(mid):
         raise Violation(f"is_parameterized false but parameter_names={sorted(mid_names)} after partial resolution\n  case: {what}")
@@ -1048,19 +1071,20 @@ def _sim_setup(r, max_points=10):
     except M.SweepError:
         raise Reject("contract-rejected sweep definition")
     _reject_const_in_cop(r["c"])
-    for t in CG.circuit_trees(r["c"]):  # constant slots must be real and finite even when the sweep has no point to evaluate them
-        if not M.names_of(t):
-            M.ev(t, None)
     sweep = M.build_sweep(r["sweep"], "str")
     if len(points) > max_points:
         points, sweep = points[:max_points], sweep[:max_points]
-    c_sym, qs = CG.build_sym_circuit(r["c"], "sym")
+    # domain first, decided by the recipe-level evaluator: literal sub-trees, every drawn assignment, and -- when the sweep has
+    # no point -- a probe assignment ((a - a)**-2 is undefined whatever the assignment); only then is anything built for Cirq
+    for t in CG.circuit_trees(r["c"]):
+        M.validate(t, None if not points else M.make_lookup(_points_to_tables(points)[0]))
     nums = []
     for tab in _points_to_tables(points):
         try:
             nums.append(CG.build_sym_circuit(r["c"], "num", M.make_lookup(tab))[0])
         except M.Cycle:
             raise Reject("cycle")
+    c_sym, qs = CG.build_sym_circuit(r["c"], "sym")
     return points, sweep, c_sym, nums, qs
 
 
@@ -1299,6 +1323,7 @@ def _circuit_numeric(r):
     look = M.make_lookup(r["vals"], stat=stat)
     try:
         for t in CG.circuit_trees(r["c"]):
+            M.validate_const(t)
             M.ev(t, look, stat)
         c_num, qs = CG.build_sym_circuit(r["c"], "num", look)
     except M.Cycle:
@@ -1489,7 +1514,8 @@ KNOWN_FEATURES = {
 #   FC10a value_of Pow fast path + sympy operand (b596891), FC10b PhasedFSimGate._parameter_names_ (789c48a),
 #   FC10c 1-qubit CircuitOperation unitary ignored param_resolver (a82c794), FC10e Sweep.__add__ unpacked ZipLongest (c8b2a6d),
 #   FC10f flatten skipped CircuitOperation (184e225), FC10g eject_z on symbolic iSWAP/FSim (e6ad139),
-#   PauliInteractionGate JSON exponent (d16af11, found with C11).
+#   PauliInteractionGate JSON exponent (d16af11, found with C11), FC10i from_phase_and_exponent on a symbolic coefficient that
+#   sympy calls "complex" (0435525), FC10j Moment resolve short-cut fooled by value-equal ops (af287d8).
 
 def uncovered():
     """Rows of the shared gate table with numeric parameters that have no symbolic slot here, and resolvable classes outside it."""
